@@ -103,7 +103,7 @@ class FaultyOpen:
         return open(path, mode, *a, **kw)
 
 
-def run_proc(argv, mode_rng=None, fault=None, events=None, schedule=None, cost=1e-3, trigger=None):
+def run_proc(argv, mode_rng=None, fault=None, events=None, schedule=None, cost=1e-3, trigger=None, stand_in_cost=0.0):
     """one process image; returns (stdout text, guesses at the seam, SessionResult)"""
     import lib_guesser.cracking_session as cs
     import lib_guesser.honeyword_session as hs
@@ -131,6 +131,7 @@ def run_proc(argv, mode_rng=None, fault=None, events=None, schedule=None, cost=1
             r.sim = sim
         else:
             ctx = session.SessionCtx(trigger=trigger)
+            ctx.cost_per_guess = stand_in_cost
             r = session.run_main(argv, ctx)
     finally:
         _PG[0] = None
@@ -233,7 +234,9 @@ def run_one(tape, tier, prop):
                 sch = threads.gen_schedule(t, total * 12)
                 what += " thread"
             resume.clean_sessions(wr)
-            tx, sm, rr = run_proc(argv + ["--limit", str(n)], fault=fault, events=events, schedule=sch)
+            # clock jumps: the virtual cost of a guess may be hours, so elapsed-time formatting reaches days
+            tx, sm, rr = run_proc(argv + ["--limit", str(n)], fault=fault, events=events, schedule=sch,
+                                  cost=t.choice([1e-3, 1.0, 5000.0, 200000.0]) if events is not None else 1e-3)
             if fault is not None:
                 res.faults["save_open_" + errno.errorcode[fault.err]] += fault.fired
             if events is not None:
@@ -311,7 +314,8 @@ def load_with_limit(res, t, argv, E, lines0, wr):
         k = t.between(1, len(E))
         cut = E[k - 1]["first_line"]
         trig = ("pop", k)
-    tx, sm, rr = run_proc(argv, trigger=trig)
+    # the interrupted process may have been running for (virtual) days: the saved running time is then large
+    tx, sm, rr = run_proc(argv, trigger=trig, stand_in_cost=t.choice([0.0, 0.01, 9000.0, 90000.0]))
     if not rr.ctx.fired or len(guesser.split_lines(tx)) != cut:
         return
     res.faults["quit_then_load_with_limit"] += 1
@@ -340,7 +344,15 @@ def load_with_limit(res, t, argv, E, lines0, wr):
     lines_u = guesser.split_lines(txu)
     for n in sorted({1, t.between(1, len(lines_u) + 1), t.between(1, max(1, min(len(lines_u), 12)))}):
         restore_files()
-        tx2, sm2, r2 = run_proc(argv + ["--load", "--limit", str(n)])
+        ev = None
+        sch = None
+        if t.chance(1, 2):
+            # status / help requests typed while the resumed process is generating
+            ev = [{"at": t.draw(n + 1), "kind": "line", "text": t.choice(["", "h", "zz"])} for _ in range(t.between(1, 2))]
+            ev.sort(key=lambda e: e["at"])
+            sch = threads.gen_schedule(t, 200)
+            sch["main_first"] = False
+        tx2, sm2, r2 = run_proc(argv + ["--load", "--limit", str(n)], events=ev, schedule=sch, cost=t.choice([1e-3, 3000.0]))
         if r2.exc:
             res.violate("C09", "raised", {"run": "load+limit", "exception": r2.exc[-1200:]})
             return
